@@ -249,7 +249,7 @@ func verifBuildShape(c *Committee, instance uint64, phase Phase, round uint64, v
 	// 7. justification contents
 	if required && m.Justification != nil {
 		jv := m.Justification.Vote
-		ok := jv.Instance == instance && jv.SupplementalData.Eq(&m.Vote.SupplementalData)
+		ok := jv.Instance == instance && verifSuppEq(&jv.SupplementalData, &m.Vote.SupplementalData)
 		shapeOK := false
 		switch phase {
 		case CONVERGE_PHASE, PREPARE_PHASE:
